@@ -95,6 +95,9 @@ type Service struct {
 	capellaForkEpoch   phase0.Epoch
 
 	// Tracking for reorgs.
+	// reorgMutex guards the block and dependent root information of the last head
+	// event, which is updated by the head event handlers of all beacon nodes.
+	reorgMutex                sync.Mutex
 	lastBlockRoot             phase0.Root
 	lastBlockEpoch            phase0.Epoch
 	currentDutyDependentRoot  phase0.Root
